@@ -171,11 +171,13 @@ def r2_single_ordering_source(ctx, rep, R='C03.R2'):
     okl = len(loops) == 1 and norm(loops[0].iter) == 'self.runner.ordered_layers()' and \
         isinstance(loops[0].target, ast.Tuple) and len(loops[0].target.elts) == 3
     if okl:
-        nm, _, tests = [e.id if isinstance(e, ast.Name) else None for e in loops[0].target.elts]
+        nm, _unused, tests = [e.id if isinstance(e, ast.Name) else None for e in loops[0].target.elts]
         cs = [c for c in ast.walk(loops[0]) if isinstance(c, ast.Call) and
               isinstance(c.func, ast.Attribute) and c.func.attr == 'list_of_tests']
-        okl = len(cs) == 1 and len(cs[0].args) == 2 and is_name(cs[0].args[0], tests) and \
-            is_name(cs[0].args[1], nm) and \
+        a_tests = (cs[0].args[0] if cs and len(cs[0].args) > 0 else kw(cs[0], 'tests')) if cs else None
+        a_name = (cs[0].args[1] if cs and len(cs[0].args) > 1 else kw(cs[0], 'layer_name')) if cs else None
+        okl = len(cs) == 1 and a_tests is not None and a_name is not None and \
+            is_name(a_tests, tests) and is_name(a_name, nm) and \
             not any(isinstance(x, (ast.If, ast.Break, ast.Continue, ast.Return)) for x in ast.walk(loops[0]))
     rep.check(okl, R, 'Listing.report lists every (tests, layer_name) of ordered_layers(), unfiltered',
               'the listing does not iterate ordered_layers() unfiltered', key='listing:source',
@@ -379,33 +381,22 @@ def r6_child_arguments(ctx, rep, R='C03.R6'):
              'records defaults and original arguments for the next level')
     m = ctx.model
     fi = m.func('runner.spawn_layer_in_subprocess')
-    g = ctx.cfg(fi)
-    ext = []
-    for n in g.nodes:
-        for c in node_calls(g, n.id):
-            if isinstance(c.func, ast.Attribute) and c.func.attr == 'extend' and \
-                    is_name(c.func.value, 'args') and c.args:
-                ext.append((n.id, c.args[0]))
-    def find(pred):
-        return [nid for nid, a in ext if pred(a)]
-    a_resume = find(lambda a: isinstance(a, ast.List) and len(a.elts) == 3 and
-                    isinstance(a.elts[0], ast.Constant) and a.elts[0].value == '--resume-layer' and
-                    is_name(a.elts[1], 'layer_name') and 'resume_number' in norm(a.elts[2]))
-    a_def = find(lambda a: isinstance(a, ast.List) and len(a.elts) == 2 and
-                 isinstance(a.elts[0], ast.Constant) and a.elts[0].value == '--default')
-    a_orig = find(lambda a: norm(a) == 'options.original_testrunner_args[1:]')
-    dom = g.dominators()
-    ok = len(a_resume) == 1 and len(a_def) == 1 and len(a_orig) == 1
-    if ok:
-        lp = [n for n in g.nodes if n.kind == 'for' and a_def[0] in g.reach(
-            [d for d, k in g.succ[n.id] if k == 'true'], avoid={n.id}, include_start=True)]
-        ok = bool(lp) and dotted(lp[0].ast) == 'options.testrunner_defaults' and \
-            a_resume[0] in dom[lp[0].id] and lp[0].id in dom[a_orig[0]] and \
-            a_orig[0] not in g.reach([a_orig[0]]) and \
-            not any(isinstance(x, (ast.If, ast.Break, ast.Continue)) for x in ast.walk(lp[0].stmt))
+    gram = arg_grammar(fi, 'args')
+    flat = [t for t in gram if t[0] != 'cond']
+    want_head = [('const', '--resume-layer'), ('expr', 'layer_name'), ('expr', 'str(resume_number)')]
+    i_res = next((i for i in range(len(flat)) if flat[i:i + 3] == want_head), None)
+    i_def = next((i for i, t in enumerate(flat) if t[0] == 'star' and
+                  t[1] == 'options.testrunner_defaults' and len(t[2]) == 2 and
+                  t[2][0] == ('const', '--default') and t[2][1][0] == 'loopvar'), None)
+    i_orig = next((i for i, t in enumerate(flat) if t == ('splice', 'options.original_testrunner_args[1:]')),
+                  None)
+    ok = None not in (i_res, i_def, i_orig) and i_res + 2 < i_def < i_orig and \
+        sum(1 for t in flat if t == ('const', '--resume-layer')) == 1 and \
+        sum(1 for t in flat if t[0] == 'splice' and 'original_testrunner_args' in t[1]) == 1
     rep.check(ok, R, 'spawn: --resume-layer NAME N, (--default D)*, original args[1:] in this order',
               'the child command line is not built as resume triple, all defaults, all original '
-              'arguments', key='child-args:writer', func=fi.qualname, where=ctx.where(fi, fi.node))
+              'arguments (built: %s)' % (gram,), key='child-args:writer', func=fi.qualname,
+              where=ctx.where(fi, fi.node))
     fc = m.func('runner.Runner.configure')
     gc_ = ctx.cfg(fc)
     tests = [n for n in gc_.nodes if n.kind == 'test' and '--resume-layer' in norm(n.ast)]
@@ -434,3 +425,60 @@ def r6_child_arguments(ctx, rep, R='C03.R6'):
               'defaults and original arguments are recorded on the options for re-invocation',
               'options.testrunner_defaults / original_testrunner_args are not recorded',
               key='child-args:recorded', func=fc.qualname, where=ctx.where(fc, fc.node))
+
+
+def arg_grammar(fi, lst):
+    """what a function appends to the list *lst*, in order, as a small grammar:
+    ('const', v) ('expr', text) ('splice', text) ('star', iterable text, [items per element])
+    ('cond', condition text, [items]) -- from the statements of the function body in order"""
+    def items_of(e, loopvar=None):
+        if isinstance(e, ast.Constant):
+            return [('const', e.value)]
+        if loopvar and isinstance(e, ast.Name) and e.id == loopvar:
+            return [('loopvar', e.id)]
+        return [('expr', norm(e))]
+
+    def seq(stmts, loopvar=None):
+        out = []
+        for st in stmts:
+            if isinstance(st, ast.Assign) and any(is_name(t, lst) for t in st.targets):
+                if isinstance(st.value, (ast.List, ast.Tuple)):
+                    out[:] = []
+                    for el in st.value.elts:
+                        out += items_of(el, loopvar)
+                continue
+            if isinstance(st, ast.Expr) and isinstance(st.value, ast.Call) and \
+                    isinstance(st.value.func, ast.Attribute) and is_name(st.value.func.value, lst):
+                c = st.value
+                if c.func.attr == 'append' and c.args:
+                    out += items_of(c.args[0], loopvar)
+                elif c.func.attr == 'extend' and c.args:
+                    a = c.args[0]
+                    if isinstance(a, (ast.List, ast.Tuple)):
+                        for el in a.elts:
+                            out += items_of(el, loopvar)
+                    else:
+                        out.append(('splice', norm(a)))
+                continue
+            if isinstance(st, ast.AugAssign) and is_name(st.target, lst) and isinstance(st.op, ast.Add):
+                a = st.value
+                if isinstance(a, (ast.List, ast.Tuple)):
+                    for el in a.elts:
+                        out += items_of(el, loopvar)
+                else:
+                    out.append(('splice', norm(a)))
+                continue
+            if isinstance(st, ast.For) and isinstance(st.target, ast.Name):
+                inner = seq(st.body, st.target.id)
+                if inner:
+                    out.append(('star', norm(st.iter), inner))
+                continue
+            if isinstance(st, ast.If):
+                inner = seq(st.body, loopvar)
+                if inner:
+                    out.append(('cond', norm(st.test), inner))
+                continue
+            if isinstance(st, (ast.Try, ast.With)):
+                out += seq(st.body, loopvar)
+        return out
+    return seq(fi.node.body)
